@@ -40,20 +40,41 @@ def _ret_call(fn):
 
 
 def r1_reflected(ctx):
+    """Value-level: on every path the dunder returns self._<op>(A, B) where the own operand is `self` and the other one
+    is the argument itself (when it is a Quantity) or Quantity(argument) (when it is not), in the order the operator
+    demands.  Local names, helpers and the spelling of the wrapping test do not matter."""
+    from ..flowexpr import consistent, paths
     n = 0
     for op in OPS:
-        for refl, want in ((f"__{op}__", ["self", "other"]), (f"__r{op}__", ["other", "self"])):
+        for refl, own_first in ((f"__{op}__", True), (f"__r{op}__", False)):
             fn = ctx.fn(Q, f"Quantity.{refl}")
-            c = _ret_call(fn)
-            if c is None or dotted_name(c.func) != f"self._{op}" or len(c.args) != 2:
-                ctx.unrecognised(Q, f"Quantity.{refl}", "delegation", f"not `return self._{op}(a, b)`")
+            arg = fn.args.args[1].arg if len(fn.args.args) == 2 else None
+            if arg is None:
+                ctx.unrecognised(Q, f"Quantity.{refl}", "delegation", "signature")
+                continue
+            ps = paths(fn)
+            rows, unk, bad_shape = {}, [], []
+            for isq in (True, False):
+                cs, u = consistent(ps, lambda e, _i=isq: _i if norm(e) == f"isinstance({arg}, Quantity)" else None)
+                unk += u
+                for q in cs:
+                    r = next((e.resolved for e in q.events if e.kind == "return"), None)
+                    if not (isinstance(r, ast.Call) and dotted_name(r.func) == f"self._{op}" and len(r.args) == 2):
+                        bad_shape.append(norm(r)[:80] if r is not None else None)
+                        continue
+                    rows.setdefault(isq, set()).add((norm(r.args[0]), norm(r.args[1])))
+            if unk or bad_shape or not rows.get(True) or not rows.get(False):
+                ctx.unrecognised(Q, f"Quantity.{refl}", "delegation", f"not `return self._{op}(a, b)` on every path ({(unk + bad_shape)[:1]})")
                 continue
             n += 1
-            got = [norm(a) for a in c.args]
-            ctx.check(got == want, Q, f"Quantity.{refl}", "operand order handed to the shared implementation", detail=got, expected=want)
-            wraps = [s for s in fn.body if isinstance(s, ast.If) and norm(s.test) == "not isinstance(other, Quantity)"
-                     and [norm(x) for x in s.body] == ["other = Quantity(other)"]]
-            ctx.form(len(wraps) == 1, Q, f"Quantity.{refl}", "a plain number operand is wrapped into a quantity")
+            other = {True: arg, False: f"Quantity({arg})"}
+            want = {i: {("self", other[i]) if own_first else (other[i], "self")} for i in (True, False)}
+            order_ok = all(all((a == "self") == own_first and (b == "self") != own_first for a, b in rows[i]) for i in rows)
+            ctx.check(order_ok, Q, f"Quantity.{refl}", "operand order handed to the shared implementation",
+                      detail=sorted(rows[True] | rows[False]), expected=["self", "other"] if own_first else ["other", "self"])
+            if order_ok:
+                ctx.check(rows == want, Q, f"Quantity.{refl}", "a plain number operand is wrapped into a quantity",
+                          detail={str(k): sorted(v) for k, v in rows.items()}, expected={str(k): sorted(v) for k, v in want.items()})
     ctx.floor("operator dunders", n, 8)
 
 
